@@ -13,6 +13,7 @@ import (
 	"runtime/debug"
 	"sort"
 	"strings"
+	"sync"
 	"time"
 
 	scalibr "github.com/google/osv-scalibr"
@@ -45,6 +46,11 @@ const osRelease = "NAME=\"Debian GNU/Linux\"\nID=debian\nVERSION_ID=\"12\"\nVERS
 
 // scratchBase is where temporary trees are created.
 func scratchBase() string {
+	// C02 work trees live on tmpfs when the supervisor could set one up: directory operations on
+	// the scratch disk cost ~0.5 ms each here, 40x what they cost on tmpfs.
+	if s := os.Getenv("C02_FASTSCRATCH"); s != "" {
+		return s
+	}
 	if s := os.Getenv("VERIF_SCRATCH"); s != "" {
 		return s
 	}
@@ -166,22 +172,110 @@ func panicSite(pcs []uintptr) string {
 	return "(outside repository)"
 }
 
-// runExtract writes data at treePath in a fresh tree and calls Extract the way the walk does
+// workTree is a cached directory holding the neighbour files of one (extractor, path, fixture
+// neighbourhood); only the file under test is written and removed per case (mkdir is slow on the
+// scratch file system). The tree is discarded as soon as an extractor leaves anything behind.
+type workTree struct {
+	root     string
+	expected map[string]bool // entries of the target's directory that belong to the neighbourhood
+}
+
+var (
+	treeMu    sync.Mutex
+	workTrees = map[string]*workTree{}
+	execCache sync.Map
+)
+
+func purgeTrees() {
+	treeMu.Lock()
+	defer treeMu.Unlock()
+	for k, w := range workTrees {
+		_ = os.RemoveAll(w.root)
+		delete(workTrees, k)
+	}
+}
+
+func treeKey(ext *extInfo, treePath string, aux map[string]string) string {
+	keys := make([]string, 0, len(aux))
+	for k, v := range aux {
+		keys = append(keys, k+"<"+v)
+	}
+	sort.Strings(keys)
+	return ext.Name + "\x00" + treePath + "\x00" + strings.Join(keys, "\x00")
+}
+
+func getTree(ext *extInfo, base, treePath string) (*workTree, string, error) {
+	aux := auxFiles(ext, base, treePath)
+	key := treeKey(ext, treePath, aux)
+	treeMu.Lock()
+	defer treeMu.Unlock()
+	if w, ok := workTrees[key]; ok {
+		return w, key, nil
+	}
+	if len(workTrees) > 600 {
+		for k, w := range workTrees {
+			_ = os.RemoveAll(w.root)
+			delete(workTrees, k)
+		}
+	}
+	root, err := os.MkdirTemp(scratchBase(), "c02-")
+	if err != nil {
+		return nil, "", err
+	}
+	if err := writeAux(root, aux); err != nil {
+		return nil, "", err
+	}
+	if err := os.MkdirAll(filepath.Join(root, filepath.FromSlash(path.Dir(treePath))), 0o755); err != nil {
+		return nil, "", err
+	}
+	w := &workTree{root: root, expected: map[string]bool{}}
+	ents, _ := os.ReadDir(filepath.Join(root, filepath.FromSlash(path.Dir(treePath))))
+	for _, e := range ents {
+		w.expected[e.Name()] = true
+	}
+	workTrees[key] = w
+	return w, key, nil
+}
+
+func dropTree(key string) {
+	treeMu.Lock()
+	defer treeMu.Unlock()
+	if w, ok := workTrees[key]; ok {
+		_ = os.RemoveAll(w.root)
+		delete(workTrees, key)
+	}
+}
+
+// runExtract writes data at treePath in a work tree and calls Extract the way the walk does
 // (file opened through the scan FS, Info from the open file, Root set to the tree), under
 // recover and a watchdog.
 func runExtract(ext *extInfo, base, treePath string, data []byte, timeout time.Duration) (runResult, error) {
-	root, err := os.MkdirTemp(scratchBase(), "c02-")
+	w, key, err := getTree(ext, base, treePath)
 	if err != nil {
 		return runResult{}, fmt.Errorf("harness: %w", err)
 	}
-	defer os.RemoveAll(root)
-	if err := writeAux(root, auxFiles(ext, base, treePath)); err != nil {
+	target := filepath.Join(w.root, filepath.FromSlash(treePath))
+	mode := fs.FileMode(0o644)
+	if ext.execPath(treePath) {
+		mode = 0o755
+	}
+	if err := os.WriteFile(target, data, mode); err != nil {
+		dropTree(key)
 		return runResult{}, fmt.Errorf("harness: %w", err)
 	}
-	if err := writeFileAt(root, treePath, data, ext.execPath(treePath)); err != nil {
-		return runResult{}, fmt.Errorf("harness: %w", err)
+	r, err := extractInTree(ext, w.root, treePath, timeout)
+	// leave the tree as it was; anything else found next to the target makes the tree unusable
+	clean := os.Remove(target) == nil && !r.TimedOut
+	if clean {
+		ents, rerr := os.ReadDir(filepath.Dir(target))
+		if rerr != nil || len(ents) != len(w.expected) {
+			clean = false
+		}
 	}
-	return extractInTree(ext, root, treePath, timeout)
+	if !clean {
+		dropTree(key)
+	}
+	return r, err
 }
 
 func extractInTree(ext *extInfo, root, treePath string, timeout time.Duration) (runResult, error) {
